@@ -19,7 +19,7 @@ STATUS = {
  "C17": "full; percentile partial on tiny axes (known finding with proved witness); NumPy's linear-interpolation percentile modelled and proved to be the order statistic (between, endpoints, k-th order statistic, monotone in q, permutation invariant)",
  "C18": "full; tiny-direction rejection known finding with proved witness",
  "C19": "full (Plane theorems with a slack on the normal's length, instantiated for doubles)",
- "C20": "shape strictness: per-callable iff theorems on generated signatures (2 partial, 2 known findings); elementwise structural + row/stack tie; purity monitored only",
+ "C20": "shape strictness: per-callable iff theorems on generated signatures (2 partial, 2 known findings); elementwise structural + row/stack tie; purity: no write to an argument proved on alias programs generated from the source (abstract interpreter proved sound), determinism monitored",
 }
 
 
